@@ -122,16 +122,43 @@ theorem blockOKB_sound (b : Block) (h : blockOKB b = true) : blockOK b := by
   obtain ⟨⟨⟨hl, hi⟩, ht⟩, htt⟩ := h
   exact ⟨identOKB_sound _ hl, fun i hi' => ⟨instOKB_sound i (hi i hi').1, (hi i hi').2⟩, instOKB_sound _ ht, htt⟩
 
+theorem headerString_sig (f : Func) :
+    headerString f = sDefine ++ (tyString f.ret ++ [32] ++ Enc.globalName f.name ++ [40] ++ paramsString f.params ++ [41]) ++ [32, 123] := by
+  simp [headerString, sOpen]
+
+theorem readDecl_print (f : Func) (h : headerOK f) : readDecl (declString f) = some (f.ret, f.name, f.params) := by
+  have e : declString f = sDeclare ++ (tyString f.ret ++ [32] ++ Enc.globalName f.name ++ [40] ++ paramsString f.params ++ [41]) := by
+    simp [declString]
+  rw [readDecl, e, TyParse.stripPrefix_append]
+  simp only
+  rw [← headerString_sig f]
+  exact readHeader_print f h
+
 theorem readFunc_print (useHex : Int → Bool) (f : Func) (h : wfSyn f = true) : readFunc (printFunc useHex f) = some f := by
   simp only [wfSyn, Bool.and_eq_true, Bool.not_eq_true', List.all_eq_true] at h
-  obtain ⟨⟨⟨hn, hp⟩, hne⟩, hb⟩ := h
+  obtain ⟨⟨hn, hp⟩, hb⟩ := h
   have hname : f.name ≠ [] := by intro e; rw [e] at hn; simp at hn
-  have hbl : f.blocks ≠ [] := by intro e; rw [e] at hne; simp at hne
-  have hh := readHeader_print f ⟨hname, fun p hp' => identOKB_sound _ (hp p hp')⟩
-  have hbs := readBlocks_print useHex f.blocks hbl (fun b hb' => blockOKB_sound b (hb b hb'))
-    ((blocksLines useHex f.blocks ++ [[125]]).length + 1) (by omega)
-  simp only [printFunc, readFunc, List.cons_append]
-  rw [hh, hbs]
+  have hok : headerOK f := ⟨hname, fun p hp' => identOKB_sound _ (hp p hp')⟩
+  by_cases hbl : f.blocks = []
+  · -- a declaration
+    obtain ⟨fr, fn, fp, fb⟩ := f
+    simp only at hbl
+    subst hbl
+    simp only [printFunc, List.isEmpty_nil, if_true, readFunc, readDecl_print _ hok]
+  · have hh := readHeader_print f hok
+    have hbs := readBlocks_print useHex f.blocks hbl (fun b hb' => blockOKB_sound b (hb b hb'))
+      ((blocksLines useHex f.blocks ++ [[125]]).length + 1) (by omega)
+    have hemp : f.blocks.isEmpty = false := by simpa using hbl
+    simp only [printFunc, hemp, Bool.false_eq_true, if_false]
+    -- the body has at least the closing line: the two-or-more-lines branch of `readFunc`
+    cases hls : blocksLines useHex f.blocks ++ [[125]] with
+    | nil => simp at hls
+    | cons l ls =>
+      rw [hls] at hbs
+      have e : headerString f :: blocksLines useHex f.blocks ++ [[125]] = headerString f :: (l :: ls) := by
+        rw [List.cons_append, hls]
+      rw [e]
+      simp only [readFunc, hh, hbs]
 
 /-! ### translation -/
 
@@ -269,7 +296,7 @@ theorem fillBlocks_id : ∀ (bs : List Block) (l : List Numbering.Slot), (∀ b 
 
 theorem fill_id (f : Func) (l : List Numbering.Slot) (h : wfSyn f = true) : fill f l = f := by
   simp only [wfSyn, Bool.and_eq_true, List.all_eq_true] at h
-  obtain ⟨⟨⟨_, hp⟩, _⟩, hb⟩ := h
+  obtain ⟨⟨_, hp⟩, hb⟩ := h
   unfold fill
   simp only [fillParams_id f.params l hp, fillBlocks_id f.blocks _ hb]
 
